@@ -374,8 +374,8 @@ func firstWords(s string) string {
 		}
 		return r
 	}, s)
-	if len(s) > 160 {
-		s = s[:160]
+	if len(s) > 700 {
+		s = s[:700]
 	}
 	return s
 }
